@@ -347,13 +347,15 @@ def _alarm(_s, _f):
 
 
 def with_timer(fn, limit=10.0):
-    old = signal.signal(signal.SIGALRM, _alarm)
-    signal.setitimer(signal.ITIMER_REAL, limit)
+    """Run fn under a CPU-time limit (ITIMER_VIRTUAL: immune to machine pauses and overload; the
+    evaluator does no I/O, so a hang is a busy loop)."""
+    old = signal.signal(signal.SIGVTALRM, _alarm)
+    signal.setitimer(signal.ITIMER_VIRTUAL, limit)
     try:
         return fn()
     finally:
-        signal.setitimer(signal.ITIMER_REAL, 0)
-        signal.signal(signal.SIGALRM, old)
+        signal.setitimer(signal.ITIMER_VIRTUAL, 0)
+        signal.signal(signal.SIGVTALRM, old)
 
 
 def parse_segments(text):
